@@ -312,6 +312,20 @@ class Ctx(object):
             # full model for replay
             r2, m2 = self.solve(neg, full=True)
             if r2 == 'sat': m = m2
+            # a model must really falsify the obligation (seen under heavy machine
+            # load: a `sat` answer whose model does not): evaluate, re-ask once, and
+            # otherwise count the obligation as undecided rather than as a counterexample
+            try:
+                bad = z3.is_false(m.eval(neg, model_completion=True))
+            except Exception:
+                bad = False
+            if bad:
+                self.stats['invalid_models_rechecked'] = self.stats.get('invalid_models_rechecked', 0) + 1
+                r3, m3 = self.solve(neg, full=True)
+                if r3 == 'unsat': r = 'unsat'
+                elif r3 == 'sat' and not z3.is_false(m3.eval(neg, model_completion=True)): m = m3
+                else: r = 'unknown'
+        if r == 'sat':
             self.stats['ob_sat'] += 1
             self.failures.append(dict(label=label, info=info, model=m,
                                       formula=formula))
